@@ -227,6 +227,33 @@ def structural_checks(ctx, members, alone):
             rec.outcome("refused:" + kind)
         except Exception as e:
             rec.violation(f"C13:refusal:{kind}:wrong-exception:{type(e).__name__}", spec=spec, error=repr(e)[:200])
+    # every ordered pair of bundled schemas under one prefix: refused whenever their XML files share a tag name (for two
+    # libraries partnered with the same standard version only the library tags count)
+    files = core.bundled_files()
+    models = {(f[3:-4] if not f.startswith("HED_") else f[4:-4]): schema_model.load(os.path.join(core.SCHEMA_DATA, f))
+              for f in files}
+
+    def names(m, lib_only):
+        return {t.name.casefold() for t in m.tags if not lib_only or "inLibrary" in t.attrs}
+    for a, ma in models.items():
+        for b, mb in models.items():
+            same_partner = bool(ma.with_standard) and ma.with_standard == mb.with_standard
+            clash = a == b or bool(names(ma, same_partner) & names(mb, same_partner))
+            if not clash:
+                continue
+            for pre in ("", "x:"):
+                rec.n("evaluations")
+                rec.n("transitions")
+                rec.n("distinct_nontrivial")
+                spec = [pre + a, pre + b]
+                try:
+                    load_schema_version(spec)
+                    rec.violation("C13:refusal:clashing-names-one-prefix:accepted:" +
+                                  ("partnered-first" if ma.with_standard and not mb.with_standard else "other"), spec=spec)
+                except HedFileError:
+                    rec.outcome("refused:pair")
+                except Exception as e:
+                    rec.violation(f"C13:refusal:pair:wrong-exception:{type(e).__name__}", spec=spec, error=repr(e)[:200])
     # testlib 2.0.0 and 3.0.0 have disjoint library tags (checked from their XML): no clash, so the merge is legitimate
     for spec in (["testlib_2.0.0", "score_1.1.0"], "testlib_2.0.0,score_1.1.0", ["tl:testlib_2.0.0", "score_1.1.0"],
                  ["testlib_2.0.0", "testlib_3.0.0"]):
